@@ -867,11 +867,11 @@ class UserActions(object):
       dropdown_condition.perform_dropdown_condition_renames(self, renames)
       perform_trigger_condition_renames(self, renames)
 
-    for table_id in rebuild_summary_tables:
+    for table_id in sorted(rebuild_summary_tables):
       table = self._engine.tables[table_id]
       self._engine._update_table_model(table, table.user_table)
 
-    for table in rename_summary_tables:
+    for table in sorted(rename_summary_tables):      # Records order by (table_id, row_id)
       groupby_col_ids = [c.colId for c in table.columns if c.summarySourceCol]
       new_table_id = summary.encode_summary_table_name(table.summarySourceTable.tableId,
                                                        groupby_col_ids)
